@@ -202,16 +202,17 @@ def check(cx):
     muts = cx.guard(r6, "btree-mutators", btree_mutators, p)
     appenders = {f for f in p.must_reach_set({K.PUSH_TO_LOG}) if f in p.fns and p.fns[f].impl_adt == K.LOGGER}
     if muts:
-        for name in ("insert", "update", "delete"):
-            f = cx.guard(r6, name, p.fn, "runtime::dml::DmlExecutor::" + name)
-            if not f:
+        DMLX = "runtime::dml::DmlExecutor"
+        fam = [g for g in p.fns.values() if (g.impl_adt == DMLX or (g.root or "").startswith(DMLX + "::"))
+               and (g.root or g.id) != DMLX + "::maintain_secondary_indexes"]
+        for g in sorted(fam, key=lambda x: x.id):
+            mc = [c for c in g.calls() if c.callee in muts]
+            if not mc:
                 continue
-            mc = [c for c in f.calls() if c.callee in muts]
-            lc = [c for c in f.calls() if c.callee in appenders]
-            good = bool(mc) and bool(lc) and all(any(f.dominates(l.bb, m.bb) for l in lc) for m in mc)
-            cx.verdict(good, r6, name, f.where(),
-                       "%d tree write(s) all dominated by a log append" % len(mc),
-                       "a B-tree mutation in DmlExecutor::%s is not dominated by the log append" % name)
+            good = all(p.dominated_interproc(g, m.bb, appenders) for m in mc)
+            cx.verdict(good, r6, g.id.rsplit("::", 1)[-1], g.where(),
+                       "%d tree write(s) all preceded by a log append (in the function or in every caller)" % len(mc),
+                       "a B-tree mutation in %s is not preceded by the log append" % g.id)
 
     # ---- C01.7 who may append / force ---------------------------------------------------
     r7 = cx.rule("C01.7", "WMC: WriteAheadLog::push is called only by Pager::push_to_log, perform_flush only by "
